@@ -407,6 +407,9 @@ func (a Int) M__imul__(other Object) (Object, error) {
 }
 
 func (a Int) M__truediv__(other Object) (Object, error) {
+	if bi, ok := ConvertToBigInt(other); ok {
+		return intTrueDiv(big.NewInt(int64(a)), (*big.Int)(bi))
+	}
 	b, err := MakeFloat(other)
 	if err != nil {
 		return nil, err
@@ -420,6 +423,9 @@ func (a Int) M__truediv__(other Object) (Object, error) {
 }
 
 func (a Int) M__rtruediv__(other Object) (Object, error) {
+	if bi, ok := ConvertToBigInt(other); ok {
+		return intTrueDiv((*big.Int)(bi), big.NewInt(int64(a)))
+	}
 	b, err := MakeFloat(other)
 	if err != nil {
 		return nil, err
